@@ -271,23 +271,47 @@ Section Helpers.
       - apply de_struct_body_lift.
     Qed.
 
+    (* what an untagged enum tries for one variant: a struct variant is not read
+       from an array *)
+    Definition de_untagged_payload (de : id -> json -> option rval) (dflt : id -> option rval)
+               (deny : bool) (v : variant) (j : json) : option rval :=
+      match v_det v, j with
+      | VStruct _, JArr _ => None
+      | vd, _ => de_payload T de dflt deny vd j
+      end.
+
     Lemma de_untagged_ok de dflt deny vs i j :
       de_untagged T de dflt deny vs i j <> None <->
-      exists v, In v vs /\ de_payload T de dflt deny (v_det v) j <> None.
+      exists v, In v vs /\ de_untagged_payload de dflt deny v j <> None.
     Proof.
-      revert i. induction vs as [|v vs IH]; intros i; simpl.
-      - split; [congruence | intros [v [[] _]]].
-      - destruct (de_payload T de dflt deny (v_det v) j) eqn:E.
+      revert i. induction vs as [|v vs IH]; intros i.
+      - simpl. split; [congruence | intros [v [[] _]]].
+      - change (de_untagged T de dflt deny (v :: vs) i j)
+          with (match de_untagged_payload de dflt deny v j with
+                | Some x => Some (REnum i x)
+                | None => de_untagged T de dflt deny vs (S i) j
+                end).
+        simpl In.
+        destruct (de_untagged_payload de dflt deny v j) eqn:E.
         + split; [intros _; exists v; split; [left; reflexivity | congruence] | congruence].
         + rewrite IH. split.
           * intros [w [Hin Hw]]. exists w. split; [right; exact Hin | exact Hw].
           * intros [w [[Ew|Hin] Hw]]; [subst w; congruence | exists w; split; assumption].
     Qed.
 
+    Lemma de_untagged_payload_lift deny v j :
+      de_untagged_payload de1 df1 deny v j <> None -> de_untagged_payload de2 df2 deny v j <> None.
+    Proof.
+      unfold de_untagged_payload.
+      destruct (v_det v) eqn:E; destruct j; try exact (fun H => H);
+        rewrite <- E; apply de_payload_lift.
+    Qed.
+
     Lemma de_untagged_lift deny vs i j :
       de_untagged T de1 df1 deny vs i j <> None -> de_untagged T de2 df2 deny vs i j <> None.
     Proof.
-      rewrite !de_untagged_ok. intros [v [Hin Hv]]. exists v. split; [exact Hin | apply de_payload_lift; exact Hv].
+      rewrite !de_untagged_ok. intros [v [Hin Hv]]. exists v.
+      split; [exact Hin | apply de_untagged_payload_lift; exact Hv].
     Qed.
 
     Lemma de_enum_lift tag vs deny j :
